@@ -410,6 +410,41 @@ def drv_matrices(c, ctx, col):
 # ---------------------------------------------------------------------------
 # data encoding
 
+def mini_specs(n):
+    """contrasts used when the *container / dtype* of the data is the dimension under test (the coding matrices are
+    covered with the object-dtype container): defaults that depend on the level order + one explicit base"""
+    return [{"kind": "treatment", "base": None}, {"kind": "SAS", "base": 0}, {"kind": "sum"},
+            {"kind": "helmert", "reverse": True, "scale": False}]
+
+
+def unused_label(kind):
+    return 777 if kind == "int" else "q"
+
+
+class Data:
+    """how the data vector reaches the library: object-dtype Series, object ndarray ("array/series" is what the docstring of
+    encode_contrasts promises; a plain list is UNSPECIFIED - it works without levels= and raises TypeError in
+    pandas.unique with levels= under pandas 3), or a Series of categorical dtype whose
+    own categories are sorted ("cat"), reversed ("cat-rev") or a superset with an unused category in front ("cat-super")"""
+
+    def __init__(self, kind, cats=None):
+        self.kind, self.cats = kind, cats
+
+    def make(self, vec):
+        if self.kind == "ndarray":
+            return numpy.array(list(vec), dtype=object)
+        if self.kind == "object":
+            return pandas.Series(list(vec), dtype=object)
+        return pandas.Series(pandas.Categorical(list(vec), categories=list(self.cats)))
+
+    def repro(self, vec):
+        if self.kind == "ndarray":
+            return "numpy.array(%r, dtype=object)" % (list(vec),)
+        if self.kind == "object":
+            return "pandas.Series(%r, dtype=object)" % (list(vec),)
+        return "pandas.Series(pandas.Categorical(%r, categories=%r))" % (list(vec), list(self.cats))
+
+
 def choose_data(c, ctx, aliases=False):
     lkind = c.pick(["str", "int", "mixed"])
     explicit = c.flag()
@@ -419,17 +454,34 @@ def choose_data(c, ctx, aliases=False):
     universe = labels(lkind, nuni)
     alphabet = universe + [None] + ([outsider(lkind)] if explicit else [])
     vec = c.seq(alphabet, ctx["L_by_n"][nuni - 1], 1)
-    if explicit:
-        levels = list(universe)
+    ckind = c.pick(ctx.get("containers", ["object"]))
+    if ckind in ("object", "ndarray"):
+        data = Data(ckind)
+        if explicit:
+            levels = list(universe)
+        else:
+            present = [v for v in vec if v is not None]
+            levels = sorted(set(present))
+            if len(levels) != nuni:
+                raise Skip()      # the same data are enumerated under the smaller universe
     else:
-        present = [v for v in vec if v is not None]
-        levels = sorted(set(present))
-        if len(levels) != nuni:
-            raise Skip()      # the same data are enumerated under the smaller universe
+        # categorical dtype: its categories are the sorted universe (+ the outsider if it occurs), reversed, or with an
+        # unused category in front.  An explicit level list must win over the dtype's categories (order, extra and
+        # missing categories); without one the dtype's categories ARE the levels (unused ones included).
+        cats = sorted(universe) + ([outsider(lkind)] if outsider(lkind) in vec else [])
+        if ckind == "cat-rev":
+            cats = cats[::-1]
+        elif ckind == "cat-super":
+            cats = [unused_label(lkind)] + cats
+        data = Data(ckind, cats)
+        levels = list(universe) if explicit else list(cats)
     if not levels:
         raise Skip()          # n >= 1 is the scope of the property
-    spec = c.pick(specs_for(len(levels), aliases=aliases, thin=len(vec) >= ctx["thin_from"]))
-    return lkind, explicit, universe, vec, levels, spec
+    if ckind == "object":
+        spec = c.pick(specs_for(len(levels), aliases=aliases, thin=len(vec) >= ctx["thin_from"]))
+    else:
+        spec = c.pick(mini_specs(len(levels)))
+    return lkind, explicit, universe, vec, levels, spec, data
 
 
 def expected_rows(data, levels, coding):
@@ -444,16 +496,16 @@ def series(vec):
 
 def drv_encode(c, ctx, col):
     from formulaic.transforms import encode_contrasts
-    lkind, explicit, universe, vec, levels, spec = choose_data(c, ctx)
+    lkind, explicit, universe, vec, levels, spec, data = choose_data(c, ctx)
     m = len(levels)
     con = build(spec, levels)
     txt = render(spec, levels)
-    where = "encode data=%r levels=%s%r %s" % (vec, "" if explicit else "inferred ", levels, txt)
+    where = "encode data=%s levels=%s%r %s" % (data.repro(vec) if data.kind != "object" else repr(vec), "" if explicit else "inferred ", levels, txt)
     rep = Reporter(col, where, {"data": vec, "levels": levels, "explicit_levels": explicit, "contrast": repr(con)})
     if m >= 2 and any(v in levels for v in vec if v is not None):
         col.interesting()
     col.sample({"data": vec, "levels": levels, "explicit": explicit, "contrast": txt})
-    col.state((lkind, explicit, tuple(map(str, vec)), txt))
+    col.state((lkind, explicit, data.kind, tuple(map(str, vec)), txt))
     coding = arr(ref_for(spec, m)[0], m - 1)
     tol = TOL if spec["kind"] == "poly" else TOL_EXACT
     fields = expected_fields(spec, levels)
@@ -463,23 +515,27 @@ def drv_encode(c, ctx, col):
         cm = coding if reduced else numpy.eye(m)
         want = expected_rows(vec, levels, cm)
         want2 = expected_rows(follow, levels, cm)
-        for output in (("pandas", "sparse", "numpy") if reduced else ("pandas", "sparse")):
+        if data.kind == "object":
+            outputs = ("pandas", "sparse", "numpy") if reduced else ("pandas", "sparse")
+        else:
+            outputs = ("pandas",) if reduced else ("sparse",)
+        for output in outputs:
             tag = "encode_contrasts(reduced_rank=%s, output=%s)" % (reduced, output)
             state = {}
             try:
-                fv = encode_contrasts(series(vec), contrasts=con, levels=list(levels) if explicit else None,
+                fv = encode_contrasts(data.make(vec), contrasts=con, levels=list(levels) if explicit else None,
                                       reduced_rank=reduced, output=output, _state=state)
             except Exception as e:  # noqa
                 rep(False, "raises", tag + " raised %s: %s" % (type(e).__name__, str(e)[:120]),
-                    repro="encode_contrasts(pandas.Series(%r, dtype=object), contrasts=%r, levels=%r, reduced_rank=%r, output=%r)"
-                          % (vec, con, levels if explicit else None, reduced, output))
+                    repro="encode_contrasts(%s, contrasts=%r, levels=%r, reduced_rank=%r, output=%r)"
+                          % (data.repro(vec), con, levels if explicit else None, reduced, output))
                 continue
             got = dense(fv)
             results[(reduced, output)] = got
             rep(got.shape == want.shape and close(got, want, tol), "encoding-not-indicator-times-coding",
                 tag + " != indicator x coding", got=got.tolist(), want=want.tolist(),
-                repro="encode_contrasts(pandas.Series(%r, dtype=object), contrasts=%r, levels=%r, reduced_rank=%r, output=%r)"
-                      % (vec, con, levels if explicit else None, reduced, output))
+                repro="encode_contrasts(%s, contrasts=%r, levels=%r, reduced_rank=%r, output=%r)"
+                      % (data.repro(vec), con, levels if explicit else None, reduced, output))
             md = fv.__formulaic_metadata__
             wf = fields if reduced else levels
             rep(same_labels(md.column_names, wf), "names", tag + " column_names %r, expected %r" % (list(md.column_names), wf))
@@ -518,7 +574,7 @@ def drv_encode(c, ctx, col):
 
 def drv_formula(c, ctx, col):
     from formulaic import model_matrix
-    lkind, explicit, universe, vec, levels, spec = choose_data(c, ctx, aliases=ctx["aliases"])
+    lkind, explicit, universe, vec, levels, spec, data = choose_data(c, ctx, aliases=ctx["aliases"])
     m = len(levels)
     ctxt = render(spec, levels)
     if ctxt is None:
@@ -527,23 +583,23 @@ def drv_formula(c, ctx, col):
         term = "x"
     else:
         term = "C(x, %s%s)" % (ctxt, ", levels=%r" % (levels,) if explicit else "")
-    output = c.pick(ctx["outputs"])
+    output = c.pick(ctx["outputs"]) if data.kind == "object" else "pandas"
     na_action = c.pick(["drop", "ignore"]) if any(v is None for v in vec) else "drop"
-    df = pandas.DataFrame({"x": series(vec)})
+    df = pandas.DataFrame({"x": data.make(vec)})
     rows = [v for v in vec if not (v is None and na_action == "drop")]
     follow = list(labels(lkind, len(ctx["L_by_n"]))) + [None, outsider(lkind)]
     rows2 = [v for v in follow if not (v is None and na_action == "drop")]
     df2 = pandas.DataFrame({"x": series(follow)})
-    where = "formula %r data=%r output=%s na_action=%s" % (term, vec, output, na_action)
+    where = "formula %r data=%s output=%s na_action=%s" % (term, data.repro(vec) if data.kind != "object" else repr(vec), output, na_action)
     rep = Reporter(col, where, {"formula": term, "data": vec, "levels": levels, "output": output, "na_action": na_action,
-                                "repro": "model_matrix(%r, pandas.DataFrame({'x': pandas.Series(%r, dtype=object)}), output=%r, na_action=%r)"
-                                         % (term, vec, output, na_action)})
+                                "repro": "model_matrix(%r, pandas.DataFrame({'x': %s}), output=%r, na_action=%r)"
+                                         % (term, data.repro(vec), output, na_action)})
     if not rows:
         raise Skip()       # every row removed as null: nothing is encoded
     if m >= 2 and any(v in levels for v in vec if v is not None):
         col.interesting()
     col.sample({"formula": term, "data": vec, "output": output, "na_action": na_action})
-    col.state((term, tuple(map(str, vec)), output, na_action))
+    col.state((term, data.kind, tuple(map(str, vec)), output, na_action))
     coding = arr(ref_for(spec, m)[0], m - 1)
     tol = TOL if spec["kind"] == "poly" else TOL_EXACT
     fields = expected_fields(spec, levels)
@@ -596,6 +652,13 @@ def drv_formula(c, ctx, col):
 
 # ---------------------------------------------------------------------------
 
+ENC_CONTAINERS = ["object", "ndarray", "cat", "cat-rev", "cat-super"]
+FRM_CONTAINERS = ["object", "cat", "cat-rev", "cat-super"]
+CONTAINER_DOC = ("object-dtype Series x every contrast option; object ndarray (encode only) and categorical dtype with sorted / "
+                 "reversed / superset categories x {treatment, SAS(base=first), sum, Helmert} (pandas reduced + sparse full; "
+                 "formulas: pandas output)")
+
+
 def subchecks(tier, seed):
     R.selftest(13)
     quick = tier == "quick"
@@ -609,13 +672,13 @@ def subchecks(tier, seed):
         Sub("matrices", drv_matrices, {"nmax": nmax}, shard_depth=3,
             bounds={"levels": "1..%d" % nmax, "label_types": ["str a,b,..", "int -10,0,5,15.. ([0,5] for n=2)", "unsorted str with the empty string", "bool (n <= 2)"], "entry": ["Contrasts", "ContrastsState"],
                     "poly_scores": [None] + SCORE_KINDS}),
-        Sub("encode", drv_encode, {"L_by_n": enc_L, "thin_from": enc_thin}, shard_depth=6,
+        Sub("encode", drv_encode, {"L_by_n": enc_L, "thin_from": enc_thin, "containers": ENC_CONTAINERS}, shard_depth=6,
             bounds={"declared_levels": "1..4", "max_data_length_by_declared_levels": enc_L, "alphabet": alpha,
-                    "outputs": ["pandas", "numpy", "sparse"], "reduced_rank": [True, False],
+                    "outputs": ["pandas", "numpy", "sparse"], "reduced_rank": [True, False], "containers": CONTAINER_DOC,
                     "contrast_options": "all" if quick else "all for data length <= 3; every base + one representative per option at length 4"}),
-        Sub("formula", drv_formula, {"L_by_n": frm_L, "thin_from": 1, "outputs": frm_out, "aliases": True if quick else "all"}, shard_depth=6,
+        Sub("formula", drv_formula, {"L_by_n": frm_L, "thin_from": 1, "outputs": frm_out, "aliases": True if quick else "all", "containers": FRM_CONTAINERS}, shard_depth=6,
             bounds={"declared_levels": "1..%d" % len(frm_L), "max_data_length_by_declared_levels": frm_L, "alphabet": alpha,
-                    "outputs": frm_out, "na_action": ["drop", "ignore"], "intercept": ["C(...)", "C(...) - 1"],
+                    "outputs": frm_out, "na_action": ["drop", "ignore"], "containers": CONTAINER_DOC, "intercept": ["C(...)", "C(...) - 1"],
                     "contrast_options": "every base of treatment, one representative of the other options, patsy aliases, bare column"}),
     ]
     return subs
